@@ -441,16 +441,16 @@ def div_literals(expr, fp_arithmetic=False):
 
     if isinstance(expr.numerator, sym.IntLiteral):
         div = gcd(expr.numerator.value, expr.denominator.value)
-        numerator = sym.IntLiteral(expr.numerator.value / div)
-        denominator = sym.IntLiteral(expr.denominator.value / div)
+        numerator = sym.IntLiteral(expr.numerator.value // div)
+        denominator = sym.IntLiteral(expr.denominator.value // div)
 
     elif isinstance(expr.numerator, sym.Product):
         value, _, remaining_components = separate_coefficients(expr.numerator, fp_arithmetic=fp_arithmetic)
         div = gcd(value, expr.denominator.value)
         numerator = mul_literals(
-            sym.Product((sym.IntLiteral(value / div), *remaining_components)), fp_arithmetic=fp_arithmetic
+            sym.Product((sym.IntLiteral(value // div), *remaining_components)), fp_arithmetic=fp_arithmetic
         )
-        denominator = sym.IntLiteral(expr.denominator.value / div)
+        denominator = sym.IntLiteral(expr.denominator.value // div)
 
     else:
         numerator, denominator = expr.numerator, expr.denominator
